@@ -111,6 +111,10 @@ func (w *moduleService) stop(_ error) error {
 
 		err = services.StopAndAwaitTerminated(context.Background(), w.service)
 	} else {
+		// The service is already stopping or stopped (it failed, or finished on its own). Wait until
+		// it is done, so that this module is not reported as stopped (and the modules it depends on
+		// are not stopped) while its stopping function is still running, and its failure is not lost.
+		_ = w.service.AwaitTerminated(context.Background())
 		err = w.service.FailureCase()
 	}
 
